@@ -422,7 +422,23 @@ def rule_memo_key(P):
                 ok = lo <= 1
                 r.add(getter, wl, ok, "" if ok else f"`while {norm(t)}` stops the search at length {lo - 1}: the fill assumes a cached prefix of that length, which "
                       f"clear_cache() removes (KeyError on the first query after clearing)", slots=dict(loop=norm(t)))
-        # the getter returns the looked-up / stored value
+        # nothing is evicted between deciding where to resume and filling from there: the fill reads the parent prefix back
+        for m in [getter] + [x for x in cls.methods.values() if x.name in ("_compute_chart",)]:
+            for n in walk_live(m.node):
+                evict = None
+                if isinstance(n, ast.Call) and isinstance(n.func, ast.Attribute):
+                    if n.func.attr in ("clear", "pop", "popitem") and norm(n.func.value) == "self._chart":
+                        evict = norm(n)
+                    if n.func.attr == "clear_cache" and W.is_name(n.func.value, "self"):
+                        evict = norm(n)
+                if isinstance(n, ast.Delete) and any("self._chart" in norm(t) for t in n.targets):
+                    evict = norm(n)
+                if isinstance(n, ast.Assign) and any(norm(t) == "self._chart" for t in n.targets):
+                    evict = norm(n)
+                if evict:
+                    r.add(m, n, False, f"`{evict}` inside the memo's own fill path: the resume index was computed from the memo before it, and "
+                          f"`_compute_chart` reads the parent prefix back from the memo right after (KeyError on a used object where a fresh one "
+                          f"answers)", construct=f"{m.name}: eviction during fill")
     # _trim_cache
     trim = P.func("cfg.py::CFG.trim")
     r.looked_at(trim)
